@@ -1,6 +1,6 @@
 (* C07 correspondence: cases written by harness/props/c07.py *)
 From BHW Require Import Lib.Base Lib.ListAux Model.Helper Model.Keys Model.Bip32M Model.WalletUtils Model.BaseWallet
-  Spec.Curve Spec.Slip132 Exec.Common Exec.Secp256k1 Exec.Bip32E.
+  Spec.Curve Spec.Bip32 Spec.Slip132 Exec.Common Exec.Secp256k1 Exec.Bip32E.
 From BHWGen Require Import Consts.
 From Coq Require Import String.
 
@@ -16,7 +16,9 @@ Inductive case :=
 (* Version(key_type, bip, testnet) -> int -> Version.parse *)
 | Ver (kt bip : Z) (net : bool) (i : res Z) (back : res (Z * Z * bool))
 (* Version.parse of an arbitrary integer *)
-| VerParse (v : Z) (back : res (Z * Z * bool)).
+| VerParse (v : Z) (back : res (Z * Z * bool))
+(* extended PUBLIC key of a private node: of the node as constructed, and of the node parsed back from its xprv string *)
+| PubOfPrv (o : oracles) (s : start) (v : Z) (direct : res str) (reparsed : res str).
 
 Definition in_slip (v : Z) : bool := existsb (fun e => snd e =? v) slip132.
 Definition slip_lookup (v : Z) : option (Z * Z * bool) :=
@@ -107,6 +109,22 @@ Definition check_case (c : case) : Z :=
                   | None, _ => true
                   | Some _, Err => false
                   end in
+      verdict agrees prop
+  | PubOfPrv o s v direct reparsed =>
+      let nd := start_node s in
+      let m_direct := extended_public_key C (hash160 o) A (sha256 o) nd (Some v) in
+      let m_re := do xs <- extended_private_key C (hash160 o) A (sha256 o) nd None;
+                  do nd2 <- parse_str A (sha256 o) true xs (ntestnet nd);
+                  extended_public_key C (hash160 o) A (sha256 o) nd2 (Some v) in
+      let agrees := beq_res beq_bytes m_direct direct && beq_res beq_bytes m_re reparsed in
+      let kk := be2z (unhex (s_key s)) in
+      let fpr0 := match s_pfpr s with Some f => unhex f | None => [0;0;0;0] end in
+      let expect := match G_mul C kk with
+                    | Some K => Ok (Spec.Bip32.ser_pub C v {| Spec.Bip32.X_K := K; Spec.Bip32.X_c := unhex (s_chain s); Spec.Bip32.X_depth := s_depth s;
+                                                             Spec.Bip32.X_fpr := fpr0; Spec.Bip32.X_idx := s_index s |})
+                    | None => Err end in
+      let dec r := match r with Ok x => decode_base58_checksum A (sha256 o) x | Err => Err end in
+      let prop := beq_res beq_bytes (dec direct) expect && beq_res beq_bytes (dec reparsed) expect in
       verdict agrees prop
   | VerParse v back =>
       let agrees := beq_res eq_triple (version_parse v) back in
